@@ -63,89 +63,114 @@ def run(ctx):
                       what="wrapping arithmetic on a clock value", found=hir.fmt(sym(n), 120))
     sat = [n for n, _ in hir.walk(body) if n.get("k") == "MethodCall" and n["name"] in ("saturating_add", "saturating_sub", "saturating_mul", "min")
            and mentions_inputs(n, fn)]
-    ctx.floor("C13.A1", "saturating/min operations on clock values", len(sat), 6)
-    # A2 / A3: the two budgets
+    ctx.floor("C13.A1", "saturating/min operations on clock values", len(sat), 3)
+    # A2 / A3 / A4: every value `time` can be given, as cases (conditions on the way, value)
     lets = {}
     for n, anc in hir.walk(body):
         if n.get("k") == "SLet" and n["pat"].get("k") == "PBind" and n.get("init") is not None:
             lets.setdefault(n["pat"]["name"], []).append(n)
+    symt = hir.Sym(env, F, through=True)
     assign_time = [n for n, _ in hir.walk(body) if n.get("k") == "Assign" and hir.strip(n["l"]).get("to", {}).get("name") == "time"]
-    clock_assign = None
+    cases = []      # (assign node, guards+conds as [(text, pol)], millis term or None, raw value)
     for a in assign_time:
-        r = hir.strip(a["r"])
-        if r.get("k") == "If":
-            clock_assign = a
-    ok_side = False
-    budgets = {}
-    if clock_assign is not None:
-        r = hir.strip(clock_assign["r"])
-        cond = hir.canon(sym(r["cond"]))
-        sides = None
-        if cond[0] == "bin" and cond[1] == "==" and cond[3][0] == "variant":
-            first = cond[3][1].split("::")[-1]
-            other = "Black" if first == "White" else "White"
-            sides = {first: r["then"], other: r["else"]}
-            who = hir.fmt(cond[2], 60)
-            ok_side = who in ("Game::player(game)", "game.current_player")
-        if sides:
-            for side, e in sides.items():
-                t = sym(e)
-                # Some(Duration::from_millis(X))
-                x = None
-                if t[0] == "ctor" and str(t[1]).endswith("Some") and t[2][0][0] == "call" and str(t[2][0][1]).endswith("Duration::from_millis"):
-                    x = t[2][0][2][0]
-                budgets[side] = x
-    ctx.check("C13.A3", "budget-selected-by-side-to-move", ok_side and set(budgets) == {"White", "Black"}, fn=GO, file=fn["file"],
-              line=hir.line(clock_assign) if clock_assign else None,
-              what="the clock budget must be chosen by the side to move of the current game", found={"sides": sorted(budgets)})
+        g0 = [(hir.fmt(hir.canon(x[1]), 300), x[2]) for x in (hir.guards_of(a, body, sym) or []) if x[0] == "if"]
+        glets = [x[1] for x in (hir.guards_of(a, body, sym) or []) if x[0] == "if" and x[2] is True and x[1][0] == "let"]
+        try:
+            split = hir.lift_ifs(symt(a["r"]))
+        except ValueError:
+            split = [((), symt(a["r"]))]
+        for conds, v in split:
+            cs = g0 + [(hir.fmt(hir.canon(c), 300), pol) for c, pol in conds if isinstance(c, tuple)]
+            ms = None
+            if v[0] == "ctor" and str(v[1]).endswith("Some") and v[2][0][0] == "call" and str(v[2][0][1]).endswith("Duration::from_millis"):
+                ms = v[2][0][2][0]
+            cases.append((a, cs, ms, v, glets))
+
+    def unwrapped(t):
+        """inputs named in a term; `x.unwrap()` and a pattern-bound `x` are the same thing here"""
+        names = set()
+        for s_ in hir.subterms(t):
+            if len(s_) == 2 and s_[0] == "var":
+                names.add(s_[1])
+        return names & INPUTS
+
+    def is_clock(t, clock):
+        return t == ("var", clock) or t == ("call", "std::option::Option::<T>::unwrap", (("var", clock),))
     own = {"White": ("wtime", "winc"), "Black": ("btime", "binc")}
-    for side, x in budgets.items():
+    clock_cases = [c for c in cases if c[2] is not None and unwrapped(c[2]) & {"wtime", "btime", "winc", "binc"}]
+    fixed_cases = [c for c in cases if c not in clock_cases]
+    sides = {}
+    for c in clock_cases:
+        side = None
+        for t, pol in c[1]:
+            for S_, O_ in (("White", "Black"), ("Black", "White")):
+                for who in ("Game::player(game)", "game.current_player"):
+                    if (t == "(%s == Player::%s)" % (who, S_) and pol) or (t == "(%s == Player::%s)" % (who, O_) and not pol) or \
+                            (t == "(%s != Player::%s)" % (who, O_) and pol):
+                        side = S_
+        sides.setdefault(side, []).append(c)
+    ctx.check("C13.A3", "budget-selected-by-side-to-move", set(sides) == {"White", "Black"} and all(len(v) == 1 for v in sides.values()), fn=GO,
+              file=fn["file"], line=hir.line(clock_cases[0][0]) if clock_cases else None,
+              what="the clock budget must be chosen by the side to move of the current game: one budget under player == White, one otherwise",
+              found={"sides": sorted(str(k) for k in sides), "cases": [(c[1][-2:], hir.fmt(c[3], 80)) for c in clock_cases]})
+    clock_assign = clock_cases[0][0] if clock_cases else None
+    for side in ("White", "Black"):
+        if side not in sides:
+            continue
+        x = sides[side][0][2]
         clock, inc = own[side]
-        CL = ("call", "std::option::Option::<T>::unwrap", (("var", clock),))
-        ok = x is not None and x[0] == "call" and str(x[1]).endswith("Ord::min") and CL in x[2]
+        ok = x is not None and x[0] == "call" and str(x[1]).endswith("Ord::min") and any(is_clock(y, clock) for y in x[2])
         ctx.check("C13.A2", "budget-clamped-by-own-clock:%s" % side, ok, fn=GO, file=fn["file"], line=hir.line(clock_assign),
                   what="%s's budget is not limited by %s's remaining time: the increment is an independent input, so 2%% of the clock + "
                        "increment can exceed the clock (`go wtime 100 ... winc 5000`)" % (side, side),
                   expected="min(.., %s) as the outermost operation" % clock, found=hir.fmt(x, 300) if x else None)
-        names = set()
-        if x is not None:
-            for s in hir.subterms(x):
-                if len(s) == 2 and s[0] == "var":
-                    names.add(s[1])
-        ctx.check("C13.A3", "budget-uses-own-clock-and-increment-only:%s" % side, names & INPUTS == {clock, inc}, fn=GO, file=fn["file"],
+        names = unwrapped(x) if x is not None else set()
+        ctx.check("C13.A3", "budget-uses-own-clock-and-increment-only:%s" % side, names == {clock, inc}, fn=GO, file=fn["file"],
                   line=hir.line(clock_assign), what="%s's budget must be computed from %s and %s" % (side, clock, inc),
-                  expected=sorted((clock, inc)), found=sorted(names & INPUTS))
+                  expected=sorted((clock, inc)), found=sorted(names))
         # share factor <= 1 and latency subtracted, not added
         frac_ok = lat_ok = False
         if x is not None:
-            for s in hir.subterms(x):
-                if len(s) == 4 and s[0] == "bin" and s[1] == "*":
-                    for side_t in (s[2], s[3]):
+            for s_ in hir.subterms(x):
+                if len(s_) == 4 and s_[0] == "bin" and s_[1] == "*":
+                    for side_t in (s_[2], s_[3]):
                         if side_t[0] == "const":
-                            b = F.const_bytes(side_t[1])
-                            v = struct.unpack("<d", b)[0]
-                            frac_ok = 0.0 <= v <= 1.0
+                            b_ = F.const_bytes(side_t[1])
+                            v_ = struct.unpack("<d", b_)[0]
+                            frac_ok = 0.0 <= v_ <= 1.0
                         if side_t[0] == "lit":
                             try:
                                 frac_ok = 0.0 <= float(side_t[1]) <= 1.0
                             except (TypeError, ValueError):
                                 pass
-                if len(s) == 3 and s[0] == "call" and str(s[1]).endswith("saturating_sub"):
+                if len(s_) == 3 and s_[0] == "call" and str(s_[1]).endswith("saturating_sub"):
                     lat_ok = True
         ctx.check("C13.A2", "share-of-clock-at-most-1:%s" % side, frac_ok, fn=GO, file=fn["file"], line=hir.line(clock_assign),
                   what="the fraction of the clock spent per move must be a constant in [0, 1]", found=frac_ok)
-    # clock branch requires all four parameters
-    g = hir.guards_of(clock_assign, body, sym) if clock_assign is not None else []
-    gt = " ".join(hir.fmt(x[1], 300) for x in (g or []) if x[0] == "if" and x[2] is True)
-    ctx.check("C13.A3", "clock-branch-needs-all-four-parameters", all(("is_some(%s)" % p) in gt.replace("<T>::", "") for p in ("wtime", "btime", "winc", "binc")),
-              fn=GO, file=fn["file"], what="the clock budget is only defined when all four clock parameters were given", found=gt[:200])
+    # clock branch requires all four parameters: is_some() tests, or one pattern that binds all four
+    four_ok = bool(clock_cases)
+    for c in clock_cases:
+        gt = " ".join(t for t, pol in c[1] if pol is True).replace("<T>::", "")
+        by_test = all(("is_some(%s)" % p_) in gt for p_ in ("wtime", "btime", "winc", "binc"))
+        by_pat = False
+        for l in c[4]:
+            vars_ = {s_[1] for s_ in hir.subterms(l[2]) if len(s_) == 2 and s_[0] == "var"}
+            pk_ = l[1]
+            if {"wtime", "btime", "winc", "binc"} <= vars_ and isinstance(pk_, tuple) and pk_[0] == "tup" and \
+                    all(isinstance(q, tuple) and q[0] == "variant" and str(q[1]).endswith("::Some") for q in pk_[1:]) and len(pk_) == 5:
+                by_pat = True
+        sep = [sum(1 for l in c[4] if l[1] == ("variant", "std::prelude::v1::Some") and l[2] == ("var", p_)) for p_ in ("wtime", "btime", "winc", "binc")]
+        four_ok = four_ok and (by_test or by_pat or all(n_ >= 1 for n_ in sep))
+    ctx.check("C13.A3", "clock-branch-needs-all-four-parameters", four_ok, fn=GO, file=fn["file"],
+              what="the clock budget is only defined when all four clock parameters were given",
+              found=[c[1][:4] for c in clock_cases][:2])
     # A4
-    mt = [a for a in assign_time if a is not clock_assign]
-    ok = len(mt) == 1 and hir.fmt(sym(mt[0]["r"]), 80) == "v1::Some(Duration::from_millis(move_time))"
-    g4 = [hir.fmt(x[1], 80) for x in (hir.guards_of(mt[0], body, sym) or []) if x[0] == "if"] if mt else []
+    mt = fixed_cases
+    ok = len(mt) == 1 and hir.fmt(mt[0][3], 80) == "v1::Some(Duration::from_millis(move_time))"
+    g4 = [t for t, pol in mt[0][1] if pol is True] if mt else []
     ctx.check("C13.A4", "fixed-time-is-the-given-value", ok and any("let(v1::Some, move_time" in t for t in g4), fn=GO, file=fn["file"],
-              line=hir.line(mt[0]) if mt else None, what="`movetime` must be used as given (never extended)",
-              expected="time = Some(Duration::from_millis(move_time))", found=[hir.fmt(sym(a["r"]), 80) for a in mt])
+              line=hir.line(mt[0][0]) if mt else None, what="`movetime` must be used as given (never extended)",
+              expected="time = Some(Duration::from_millis(move_time))", found=[hir.fmt(c[3], 80) for c in mt])
     # later adjustment: only a saturating subtraction of a constant
     adj = [n for n in lets.get("time", []) if hir.strip(n["init"]).get("k") == "MethodCall"]
     ok = len(adj) == 1 and hir.fmt(sym(adj[0]["init"]), 80) == "Duration::saturating_sub(time, Duration::from_millis(5))"
